@@ -60,7 +60,7 @@ MutVerdict(e) == IF e.o = "panic" THEN "panic"
 CtorWantOk(e) ==
   CASE e.fn = "Dual::try_new" -> e.nd = 0 \/ e.nd = e.nvars
     [] e.fn = "Dual2::try_new" -> (e.nd = 0 \/ e.nd = e.nvars) /\ (e.n2 = 0 \/ e.n2 = e.nvars * e.nvars)
-    [] e.fn = "Ccy::try_new" -> e.nbytes = 3
+    [] e.fn = "Ccy::try_new" -> e.nbytes = 3                       \* byte length of the LOWER-CASED code (what is stored)
     [] e.fn = "FXPair::try_new" -> e.la = 3 /\ e.lb = 3 /\ ~e.same
     [] e.fn = "csolve" -> (e.ntau = e.n \/ (e.lsq /\ e.ntau > e.n)) /\ e.ny = e.ntau
     [] e.fn = "FXRates::try_new" -> e.tree
@@ -68,5 +68,6 @@ CtorVerdict(e) == IF e.o = "panic" THEN "panic"
                   ELSE IF CtorWantOk(e) /\ e.o # "ok" THEN "valid-arguments-rejected"
                   ELSE IF ~CtorWantOk(e) /\ e.o # "err" THEN "invalid-arguments-accepted"
                   ELSE IF e.o = "ok" /\ "shape" \in DOMAIN e /\ ShapeViol(e.shape) # {} THEN "shape"
+                  ELSE IF e.o = "ok" /\ "stored_nbytes" \in DOMAIN e /\ e.stored_nbytes # 3 THEN "shape"     \* a stored currency code is 3 bytes
                   ELSE ""
 ===============================================================================
